@@ -190,6 +190,29 @@ def reg_task(task):
                 stats['direct-fail'] += 1
                 if len(viol) < 8:
                     viol.append(dict(what='active plugins %r (used by a run: %r) but the history says %r' % (got, used, want), ops=ops))
+            # the same for contracts and interfaces: a contract is accepted iff its object implements an interface active AT THAT MOMENT
+            # (whatever was accepted earlier); a refused call changes nothing
+            act_if, act_ct, exp_outs = [0, 1], {}, ''
+            for o in ops:
+                ok_ = True
+                if o[0] == 'ai':
+                    if o[1] not in act_if: act_if.append(o[1])
+                elif o[0] == 'ri':
+                    if o[1] in act_if: act_if.remove(o[1])
+                elif o[0] == 'ac':
+                    if any(i_ in act_if for i_ in impl_matrix[o[2]]): act_ct[o[1]] = o[2]
+                    else: ok_ = False
+                elif o[0] == 'rc':
+                    act_ct.pop(o[1], None)
+                exp_outs += ('o' if ok_ else 'e') if o[0] in ('ai', 'ri', 'ac', 'rc') else '.'
+            got_ct = {k[0]: KS.index(v) for k, v in F._contracts.items()}
+            got_if = [names.index(nm) for nm in F._contract_interfaces]
+            got_outs = ''.join(c_ if o_[0] in ('ai', 'ri', 'ac', 'rc') else '.' for c_, o_ in zip(outs, ops))
+            if got_ct != act_ct or got_if != act_if or got_outs != exp_outs:
+                stats['direct-fail'] += 1
+                if len(viol) < 8:
+                    viol.append(dict(what='contracts %r, interfaces %r, accepted/refused %s after this history; the history says contracts %r, interfaces %r, %s '
+                                          '(contract k implements interfaces %s)' % (got_ct, got_if, got_outs, act_ct, act_if, exp_outs, mstr), ops=ops))
             if len(samples) < 2:
                 samples.append(dict(ops=ops, impl=impl))
     finally:
